@@ -99,7 +99,15 @@ func main() {
 		file := filepath.Base(in)
 		file = file[0 : len(file)-len(filepath.Ext(in))] // Remove extension.
 
-		err = os.WriteFile(filepath.Join(options.out, fmt.Sprintf("%s.%s", file, conv.Extension())), []byte(dump), 0777)
+		outPath := filepath.Join(options.out, fmt.Sprintf("%s.%s", file, conv.Extension()))
+
+		// Make sure the input file is not overwritten (e.g. tsh -i q.sh -o . -t bash).
+		if inStat, errIn := os.Stat(in); errIn == nil {
+			if outStat, errOut := os.Stat(outPath); errOut == nil && os.SameFile(inStat, outStat) {
+				panic(fmt.Errorf("output file %s is the input file", outPath))
+			}
+		}
+		err = os.WriteFile(outPath, []byte(dump), 0777)
 
 		if err != nil {
 			panic(err)
